@@ -44,9 +44,34 @@ def canon(text):
 # inputs on which llir and LLVM 14 differ BY THE PROPERTIES' OWN DEFINITIONS (not compared):
 #  * `s0x` literals: property C09 defines them as two's complement AT THE TYPE'S WIDTH (what llir does); LLVM 14 truncates the digits to their active
 #    bits first (`i4 s0x7` is -1 for LLVM, 7 for C09)
+def uniqued_md_cycle(text):
+    """does the module define a cycle through NON-distinct metadata nodes only? LLVM uniques such nodes while their operands are still forward references,
+    so the graph it builds depends on the ORDER of the definitions; llir prints definitions by ID (C20), which LLVM may then read as a different graph.
+    LLVM's own printer never emits such modules (it makes self-referential nodes distinct)."""
+    adj, dist = {}, set()
+    for m in re.finditer(r"(?m)^!(\d+) = (distinct )?!\{(.*)\}\s*$", text):
+        i = m.group(1)
+        if m.group(2):
+            dist.add(i)
+        adj[i] = re.findall(r"!(\d+)", m.group(3))
+    color = {}
+    def dfs(u):
+        color[u] = 1
+        for v in adj.get(u, []):
+            if v in dist or v not in adj:
+                continue
+            if color.get(v) == 1 or (color.get(v) is None and dfs(v)):
+                return True
+        color[u] = 2
+        return False
+    return any(color.get(u) is None and u not in dist and dfs(u) for u in list(adj))
+
+
 def excluded(text):
     if "s0x" in text:
         return "s0x literal (C09 defines the value at the type's width; LLVM 14 reads the active bits)"
+    if uniqued_md_cycle(text):
+        return "cycle through non-distinct metadata nodes (LLVM's reading depends on the order of the definitions)"
     return None
 
 
